@@ -274,7 +274,7 @@ func (v Val) arg() any {
 		return v.G
 	default:
 		if v.Form == "bytes" {
-			return []byte(v.S)
+			return spareBytes(v.S)
 		}
 		return v.S
 	}
@@ -329,6 +329,32 @@ func (s *Sess) resync(path string, standalone bool) string {
 	return "parsed-as-left"
 }
 
+const spareFill = "\xa5SPARE\xa5"
+
+// spareBytes is the caller's buffer: the document followed by spare capacity the caller
+// still owns (a slice of a bigger buffer); neither part is the library's to write.
+func spareBytes(s string) []byte {
+	b := make([]byte, len(s), len(s)+len(spareFill))
+	copy(b, s)
+	copy(b[len(s):cap(b)], spareFill)
+	return b
+}
+
+// spareIntact reports what a call did to a buffer made by spareBytes.
+func spareIntact(a any, want string) string {
+	b, ok := a.([]byte)
+	if !ok {
+		return ""
+	}
+	if string(b) != want {
+		return "the bytes handed to the call were changed"
+	}
+	if cap(b) >= len(b)+len(spareFill) && string(b[len(b):len(b)+len(spareFill)]) != spareFill {
+		return fmt.Sprintf("the call wrote behind the end of the slice it was given (spare capacity now %q)", b[len(b):len(b)+len(spareFill)])
+	}
+	return ""
+}
+
 // nonDirDiff drops directory entries from a digest diff.
 func nonDirDiff(df []string) []string {
 	var out []string
@@ -340,37 +366,43 @@ func nonDirDiff(df []string) []string {
 	return out
 }
 
-// Invoke performs the real call.
-func (s *Sess) Invoke(t *vkit.T, o Op) {
+// Invoke performs the real call. It returns what the call did to the caller's buffer
+// ("" = nothing), when the value was handed over as bytes.
+func (s *Sess) Invoke(t *vkit.T, o Op) string {
 	c := s.config(o)
+	first := o.Val.arg()
 	switch o.API {
 	case "snap":
-		args := []any{o.Val.arg()}
+		args := []any{first}
 		for _, v := range o.Multi {
 			args = append(args, v.arg())
 		}
 		c.MatchSnapshot(t, args...)
 	case "ssnap":
-		c.MatchStandaloneSnapshot(t, o.Val.arg())
+		c.MatchStandaloneSnapshot(t, first)
 	case "json":
 		if o.Fail == "matcher" {
-			c.MatchJSON(t, o.Val.arg(), match.Any("no.such.path.zz"))
+			c.MatchJSON(t, first, match.Any("no.such.path.zz"))
 		} else {
-			c.MatchJSON(t, o.Val.arg())
+			c.MatchJSON(t, first)
 		}
 	case "sjson":
 		if o.Fail == "matcher" {
-			c.MatchStandaloneJSON(t, o.Val.arg(), match.Any("no.such.path.zz"))
+			c.MatchStandaloneJSON(t, first, match.Any("no.such.path.zz"))
 		} else {
-			c.MatchStandaloneJSON(t, o.Val.arg())
+			c.MatchStandaloneJSON(t, first)
 		}
 	case "yaml":
 		if o.Fail == "matcher" {
-			c.MatchYAML(t, o.Val.arg(), match.Any("$.no.such.path.zz"))
+			c.MatchYAML(t, first, match.Any("$.no.such.path.zz"))
 		} else {
-			c.MatchYAML(t, o.Val.arg())
+			c.MatchYAML(t, first)
 		}
 	}
+	if o.Val.Form == "bytes" && o.Val.Kind != "go" && o.Val.Kind != "marshal-error" {
+		return spareIntact(first, o.Val.S)
+	}
+	return ""
 }
 
 // StepResult is what one lockstep step observed.
@@ -470,12 +502,13 @@ func (s *Sess) Step(t *vkit.T, o Op, m vkit.Mode) StepResult {
 
 	vkit.Backdate(s.Root)
 	d0 := vkit.TakeDigest(s.Root)
+	bufProblem := ""
 	func() {
 		if o.Fault {
 			faultOn(o.FaultAt)
 			defer faultOff() // also when the library panics: the harness must be able to write its witness
 		}
-		s.Invoke(t, o)
+		bufProblem = s.Invoke(t, o)
 	}()
 	res.Signals = t.Take()
 	res.Got = vkit.Classify(res.Signals)
@@ -492,6 +525,10 @@ func (s *Sess) Step(t *vkit.T, o Op, m vkit.Mode) StepResult {
 
 	add := func(kind, class, detail string) {
 		res.Problems = append(res.Problems, Problem{Kind: kind, Class: class, Detail: detail})
+	}
+	if bufProblem != "" {
+		add("caller-buffer-modified", "", fmt.Sprintf("%s %s k=%d: %s", o.API, o.Test, k, bufProblem))
+		return res
 	}
 
 	if res.Got != res.Expected {
